@@ -212,6 +212,11 @@ def run_case(case, res):
 
     def visible(uid):
         s = objs[uid].state
+        if api == 'tmgr':
+            # wait_tasks: a task which is past the earliest awaited state has
+            # reached it (documented in the method: "if the task happens to
+            # be in any later state, we are sure the earliest has passed")
+            return V[s] >= rmin or s in _FINAL
         return s in rlist or s in _FINAL
 
     def evaluate(poll):
